@@ -68,6 +68,10 @@ class Svc(_rpyc.Service):
     def exposed_lend(self):
         return self.lent
 
+    def exposed_build(self, cls, n):
+        """calls a class the CLIENT passed (a callable like any other) and hands the instance back"""
+        return cls(n)
+
 
 def make_server(kind, unix=False, authenticator=None, nthreads=4, protocol_config=None):
     cls = {"threaded": rserver.ThreadedServer, "pool": rserver.ThreadPoolServer, "oneshot": rserver.OneShotServer,
